@@ -127,7 +127,7 @@ def run(ctx):
             t = b["term"]
             if t["k"] == "call":
                 c = M.callee_of(t)
-                if re.search(r"(<u64 as std::ops::(Add|Sub|Mul|AddAssign|SubAssign|MulAssign)(<.*>)?>::|<impl std::ops::(Add|Sub|Mul|AddAssign|SubAssign|MulAssign)(<.*>)? for &?u64>::|"
+                if re.search(r"(<&?u64 as std::ops::(Add|Sub|Mul|AddAssign|SubAssign|MulAssign)(<.*>)?>::|<impl std::ops::(Add|Sub|Mul|AddAssign|SubAssign|MulAssign)(<.*>)? for &?u64>::|"
                              r"std::num::<impl u64>::(wrapping_|overflowing_|unchecked_)(add|sub|mul)|<u64 as std::iter::Sum)", c):
                     n_arith += 1
                     ctx.ob("R2", "%s|%s" % (fn.path, c), False, fn.loc(bb), "unchecked operator `%s` on u64 (gas) values" % c, fn)
